@@ -19,6 +19,13 @@ CLAIMED = {
         "Trusted: the reference deframer/CRC in harness/refcodec/link.rs (written from IEEE 1815), the simulated phys seam (hook H2), tokio's current_thread runtime. Error patterns of weight 1..3 are sampled (stratified over header, CRC and block positions), not enumerated.",
         "DESIGN.md section 6 C06",
     ),
+    "C08": (
+        "S-TRANS",
+        "deterministic simulation: seeded search over fragment sets, writer sequence offsets, frame-level drop/dup/swap/re-address/flip/interleave faults and read schedules between the real transport writers and reader, compared with reference segmenter/reassembler and exact attribution",
+        "Seeded exploration (not exhaustive): fragments with unique content are segmented by two real transport writers (cross-checked against a reference segmenter and framer), the resulting link frames are dropped, duplicated, swapped, re-addressed, bit-flipped or interleaved, re-chunked at byte level and fed to the real transport reader; delivered fragments are compared with a reference reassembler run on the stream that actually arrived, attributed exactly to written fragments, and in fault-free runs required to equal the input. Right level: the property quantifies over lengths x sequence offsets x buffer sizes x damaged segment streams, which is sampled densely with boundary-weighted generators.",
+        "Trusted: reference framer/deframer and reassembler in harness/refcodec (written from IEEE 1815), the simulated phys seam (H2). transport::real is only compiled in non-test builds, so it runs here through the shadow manifest.",
+        "DESIGN.md section 6 C08",
+    ),
 }
 
 PENDING_REASON = "check not built yet in this tree (work in progress, see DESIGN.md section 11); not claimed until its oracle has passed determinism and sensitivity validation"
@@ -65,6 +72,7 @@ def main():
         },
         "engines": [
             {"name": "S-LINK", "path": "harness/props/c06.rs", "serves_properties": ["C06"], "kind_free_text": "real link reader/parser/formatter over a simulated physical layer; seeded streams, faults and read plans"},
+            {"name": "S-TRANS", "path": "harness/props/c08.rs", "serves_properties": ["C08"], "kind_free_text": "two real transport writers -> frame-level fault stage -> real transport reader (link layer + assembler) over simulated phys"},
         ],
         "checks": checks,
         "not_applicable": na,
